@@ -19,12 +19,15 @@ Modelled code:
                          (next_tasks / has_next_tasks / error_handled / processed, completion check
                          registered for every completed task: base `may_complete_workflow`),
                          Workflow.check_and_complete.
-Not modelled here: data flow (inbound context), policies (retries …), pause / resume / stop / rerun,
+Operator commands pause / resume / stop follow the direct engine model (Mistral.Engine): Lifecycle.wfApply
+for the state, Workflow.resume → continue_workflow() → _continue_workflow.
+Not modelled here: data flow (inbound context), policies (retries …), rerun,
 with-items, sub-workflows.  One `Event` = one committed transaction / post-commit operation / executor
 run, as in Mistral.Engine.  The order of the commands (a DFS post-order in the code, whose tie-breaking
 depends on hash order of spec objects) is not part of the model: lists denote sets.
 -/
 import Mistral.Model.States
+import Mistral.Model.Lifecycle
 namespace Mistral.Reverse
 open Mistral
 
@@ -71,6 +74,36 @@ def grow (sp : Spec) : Nat → List Task → List String → List String
     transitively requires.  `none` = `_get_target_task_specification` raises WorkflowException. -/
 def needed (sp : Spec) : Option (List String) :=
   if isTask sp sp.target then some (grow sp sp.tasks.length sp.tasks [sp.target]) else none
+
+/-! ### definition-time validation: `ReverseWorkflowSpec._check_workflow_integrity` -/
+
+/-- every task the named task requires is resolved -/
+def readyN (sp : Spec) (done : List String) (n : String) : Bool := (reqsN sp n).all done.contains
+
+/-- `_check_requires_cycles`: the task names are resolved layer by layer (a task is resolved once
+    everything it requires is); `false` = a round in which nothing can be resolved while names remain
+    (InvalidModelException "cyclic 'requires'").  One round per remaining name always suffices
+    (`peel_fuel`), the python loop has no bound. -/
+def peel (sp : Spec) : Nat → List String → List String → Bool
+  | _, [], _ => true
+  | 0, _ :: _, _ => false
+  | f + 1, rem, done =>
+    let ready := rem.filter (readyN sp done)
+    if ready.isEmpty then false
+    else peel sp f (rem.filter fun n => !(done ++ ready).contains n) (done ++ ready)
+
+def requiresAcyclic (sp : Spec) : Bool := peel sp sp.tasks.length (sp.tasks.map (·.name)) []
+
+inductive IntegrityErr where
+  | taskNotFound      -- InvalidModelException "Task '…' not found."
+  | requiresCycle     -- InvalidModelException "… (cyclic 'requires') …"
+  deriving Repr, DecidableEq
+
+/-- `_check_workflow_integrity`: first every required name must be a task, then no cycle -/
+def checkIntegrity (sp : Spec) : Option IntegrityErr :=
+  if !(sp.tasks.all fun t => (requiresOf sp t).all (isTask sp)) then some .taskNotFound
+  else if !requiresAcyclic sp then some .requiresCycle
+  else none
 
 structure TaskRow where
   name : String
@@ -132,6 +165,8 @@ inductive Item where
   | runAction (t : String)        -- at the executor
   | rpcResult (t : String) (ok : Bool)
   | postCheck                     -- post-commit op (own tx): workflow completion check
+  | postStartExisting (t : String)   -- post-commit op: send RPC start_task (first_run=False): resume
+  | rpcStartExisting (t : String)
   deriving Repr, DecidableEq
 
 structure World where
@@ -144,13 +179,20 @@ inductive Event where
   | start
   | deliver (it : Item)
   | execute (t : String) (ok : Bool)   -- the executor runs the action of task t and reports
+  | pause                              -- operator commands (DefaultEngine.pause_workflow / …)
+  | resume
+  | stop (target : St)
   deriving Repr
 
 def newRow (n : String) : TaskRow :=
   { name := n, state := .IDLE, processed := false, hasNext := false, nextTasks := [], errorHandled := false }
 
 /-- dispatcher `_process_commands` for RunTask commands: nothing once the workflow is completed,
-    else one IDLE row and one post-commit `_start_task` per command -/
+    else one IDLE row and one post-commit `_start_task` per command.  (The backlog branch of the
+    dispatcher — commands saved while PAUSED — is never entered by a reverse run: `Task.complete`
+    returns before dispatching when the workflow is paused, and start / resume dispatch after the
+    workflow was set RUNNING; reverse workflows have no `pause` engine command.  The streams check
+    that the real backlog stays empty.) -/
 def dispatch (w : World) (ns : List String) : World :=
   if isCompleted w.wf then w
   else { w with tasks := w.tasks ++ ns.map newRow, pending := w.pending ++ ns.map Item.postStartTask }
@@ -189,11 +231,25 @@ def completeTask (sp : Spec) (w : World) (t : String) (s : St) : World :=
     { w with tasks := updRow w.tasks t fun r => { r with state := .ERROR },
              wf := if isCompleted w.wf then w.wf else .ERROR }
   | some ns =>
+    if isPaused w.wf then
+      -- a paused workflow: the next tasks are stored, nothing is dispatched, the task stays unprocessed
+      { w with tasks := updRow w.tasks t fun r =>
+          { r with state := s, nextTasks := ns, hasNext := !ns.isEmpty,
+                   errorHandled := if s == .ERROR then false else r.errorHandled } }
+    else
     let rows := updRow w.tasks t fun r =>
       { r with state := s, nextTasks := ns, hasNext := !ns.isEmpty,
                errorHandled := if s == .ERROR then false else r.errorHandled, processed := true }
     -- the completion check is registered for every completed task, then the commands are dispatched
     dispatch { w with tasks := rows, pending := w.pending ++ [.postCheck] } ns
+
+/-- the task has an action execution that has not completed -/
+def hasLiveAction (w : World) (t : String) : Bool :=
+  w.pending.any fun i => match i with
+    | .postRunAction t' => t' == t
+    | .runAction t' => t' == t
+    | .rpcResult t' _ => t' == t
+    | _ => false
 
 def step (sp : Spec) (w : World) : Event → World
   | .start =>
@@ -205,6 +261,25 @@ def step (sp : Spec) (w : World) : Event → World
   | .execute t ok =>
     if !w.pending.contains (.runAction t) then w else
     { w with pending := removeFirst w.pending (.runAction t) ++ [.rpcResult t ok] }
+  | .pause => { w with wf := (Lifecycle.wfApply w.wf .pause).1 }
+  | .stop t => { w with wf := (Lifecycle.wfApply w.wf (.stop t)).1 }
+  | .resume =>
+    -- no execution yet (IDLE here) cannot be resumed; anything but PAUSED is left alone
+    if !isPaused w.wf then w else
+    let wf1 := (Lifecycle.wfApply w.wf .resume).1
+    -- continue_workflow(): RunExistingTask for IDLE rows + RunTask for the satisfied tasks
+    match continueWorkflow sp wf1 w.tasks false with
+    | none => w
+    | some cmds =>
+      let existing := cmds.filterMap fun c => match c with
+        | .runExisting n => some n
+        | .runTask _ => none
+      let ns := runTaskNames cmds
+      -- _continue_workflow: completed tasks not yet processed are marked processed
+      let rows := w.tasks.map fun r => if isCompleted r.state && !r.processed then { r with processed := true } else r
+      let w1 := { w with wf := wf1, tasks := rows }
+      if cmds.isEmpty then checkAndComplete w1
+      else dispatch { w1 with pending := w1.pending ++ existing.map Item.postStartExisting } ns
   | .deliver (.runAction _) => w     -- executors answer through `execute`
   | .deliver it =>
     if !w.pending.contains it then w else
@@ -213,6 +288,17 @@ def step (sp : Spec) (w : World) : Event → World
     | .postStartTask t => { w with pending := w.pending ++ [.rpcStartTask t] }
     | .postRunAction t => { w with pending := w.pending ++ [.runAction t] }
     | .runAction _ => w
+    | .postStartExisting t => { w with pending := w.pending ++ [.rpcStartExisting t] }
+    | .rpcStartExisting t =>
+      match findRow w t with
+      | none => w
+      | some r =>
+        -- _run_existing: a succeeded task refuses (MistralError, the transaction is rolled back); a task
+        -- already running its action ignores the request; else the task is (re)started
+        if r.state == .SUCCESS then w
+        else if r.state == .RUNNING && hasLiveAction w t then w
+        else { w with tasks := updRow w.tasks t fun x => { x with state := .RUNNING, processed := false },
+                      pending := w.pending ++ [.postRunAction t] }
     | .postCheck => checkAndComplete w
     | .rpcStartTask t =>
       match findRow w t with
